@@ -41,6 +41,7 @@ type Engine struct {
 	Unwind      int
 	PermuteMaps bool
 	NoMerge     bool
+	NoPCRestore bool
 	Concrete    *ConcreteSource // non-nil: vp inputs are concrete (conformance mode)
 
 	nextObj   int
@@ -89,7 +90,7 @@ func Load(dir string, overlay map[string][]byte, patterns ...string) (*Engine, e
 	prog.Build()
 	e := &Engine{
 		prog: prog, pkgs: pkgs, ssaPkgs: map[string]*ssa.Package{},
-		MaxSteps: 50_000_000, Unwind: 4_000_000,
+		MaxSteps: 400_000_000, Unwind: 4_000_000,
 		objs: map[int]*Object{}, globals: map[*ssa.Global]*Object{}, fnInfos: map[*ssa.Function]*fnInfo{},
 		errMsgs: map[int]string{}, feasCache: map[int]bool{},
 		funcsSeen: map[string]bool{}, modelsHit: map[string]bool{}, stdGlobal: map[string]bool{},
@@ -290,6 +291,8 @@ type Job struct {
 	Func string  `json:"func"`
 	Args []int64 `json:"args"`
 	Seed *uint64 `json:"seed,omitempty"` // non-nil: conformance run with concrete pseudo-random inputs
+	// Model, when set, makes the run concrete with exactly these input values (triage of a solver model)
+	Model *ModelJSON `json:"model,omitempty"`
 }
 
 type ObStatus string
@@ -372,6 +375,24 @@ func (e *Engine) RunJob(j Job) (res JobResult) {
 	if j.Seed != nil {
 		e.Concrete = &ConcreteSource{Seed: *j.Seed, Random: true}
 	}
+	if j.Model != nil {
+		cs := &ConcreteSource{Fixed: map[string]uint64{}, Arrays: map[string]map[uint64]uint64{}}
+		for k, v := range j.Model.Scalars {
+			cs.Fixed[k] = v
+		}
+		for name, m := range j.Model.Arrays {
+			cs.Arrays[name] = map[uint64]uint64{}
+			for k, v := range m {
+				var ix uint64
+				fmt.Sscan(k, &ix)
+				cs.Arrays[name][ix] = v
+			}
+		}
+		for _, c := range j.Model.Choices {
+			cs.Fixed["choose:"+c.Name] = uint64(c.Val)
+		}
+		e.Concrete = cs
+	}
 	s0 := e.stats
 	defer func() {
 		if r := recover(); r != nil {
@@ -419,6 +440,7 @@ func (e *Engine) RunJob(j Job) (res JobResult) {
 	}
 	st := e.base.fork()
 	st.written = map[int]bool{}
+	st.steps = 0
 	outs := e.call(st, fn, args, nil, 1)
 	res.Paths = len(outs)
 	for _, o := range outs {
@@ -427,7 +449,7 @@ func (e *Engine) RunJob(j Job) (res JobResult) {
 			e.checkObligation(o.St, "no-unexpected-panic", term.False, fmt.Sprintf("%s at %s", o.Panic.Msg, o.Panic.Site))
 		}
 		e.checkGlobalWrites(o.St)
-		if e.Concrete != nil {
+		if e.Concrete != nil || os.Getenv("VERIF_DEBUG_OBS") != "" {
 			var row []ObsOut
 			for _, ob := range o.St.obs {
 				row = append(row, ObsOut{ob.Name, renderObs(o.St, ob.Val)})
@@ -642,6 +664,25 @@ func (e *Engine) solveOb(st *State, label string, goal *term.Term, note, finding
 			i++
 		}
 		ob.Model = m
+		// self-check: the model must satisfy the goal under the engine's own evaluator; if it does not,
+		// the SMT-LIB rendering or the solver disagrees with the term semantics
+		tm := term.NewModel()
+		for k, v := range m.Scalars {
+			tm.Scalars[k] = v
+		}
+		for name, am := range m.Arrays {
+			av := &term.ArrVal{M: map[uint64]uint64{}}
+			for k, v := range am {
+				var ix uint64
+				fmt.Sscan(k, &ix)
+				av.M[ix] = v
+			}
+			tm.Arrays[name] = av
+		}
+		if ok, evalErr := safeEval(goal, tm); evalErr == "" && !ok {
+			ob.Status = ObInconclusive
+			ob.Note = strings.TrimSpace(ob.Note + " solver model does not satisfy the goal under the engine's evaluator (encoding mismatch)")
+		}
 	}
 	e.recordOb(ob)
 }
@@ -657,7 +698,15 @@ func renderObs(st *State, v Value) string {
 		if s, ok := x.Concrete(); ok {
 			return fmt.Sprintf("%q", s)
 		}
-		return "sym-string"
+		var sb strings.Builder
+		for _, b := range x.bytes() {
+			if b.IsConst() {
+				sb.WriteByte(byte(b.Val))
+			} else {
+				sb.WriteByte('?')
+			}
+		}
+		return "sym-string:" + sb.String()
 	}
 	return fmt.Sprintf("%T", v)
 }
@@ -747,4 +796,14 @@ func (e *Engine) Close() smt.Stats {
 		}
 	}
 	return st
+}
+
+func safeEval(goal *term.Term, m *term.Model) (ok bool, err string) {
+	defer func() {
+		if r := recover(); r != nil {
+			err = fmt.Sprint(r)
+		}
+	}()
+	v, _ := term.Eval(goal, m)
+	return v != 0, ""
 }
